@@ -14,6 +14,13 @@ snapshotted before construction and compared after every step; a keypoint missin
 labels is NaN in the sample and its confidence-map channel carries nothing; finite
 keypoints equal the label scaled by the documented transform; `len` equals the number of
 non-empty instances (centered) / frames with a non-empty instance (others).
+
+Missing-node encodings (class `missing_enc=nan|hidden|mixed`): a label file can encode a missing
+node as NaN coordinates or as a point whose `visible` flag is False while the stored xy is still
+finite (SLEAP GUI "hide node"; survives .slp save/load).  Ground truth for "missing" is what
+`Instance.numpy()` reports as NaN, so both encodings have the same expected samples.  The dataset
+part draws the encoding per case for all four dataset classes; the functional part has the op
+`process_lf` (providers.process_lf on a one-frame label set) with the same encodings.
 """
 
 import math
@@ -26,7 +33,8 @@ PROPERTY = "C11"
 LEVEL = "exploration"
 RULE = (
     "functional part: a case is a list of functional calls with generated tensors; dataset part: a case is a "
-    "label-set spec + dataset class/config + a read history (list of getitem/len/next operations); "
+    "label-set spec (missing nodes stored as NaN, as hidden-with-finite-xy, or mixed: class missing_enc) + dataset "
+    "class/config + a read history (list of getitem/len/next operations); "
     "non-trivial (dataset) = the history reads some index at least twice with another read in between AND the "
     "label set has a missing anchor, a missing node or an empty instance; non-trivial (functional) = an input "
     "has a NaN keypoint (missing anchor for generate_centroids)"
@@ -35,9 +43,51 @@ ASSUMPTIONS = [
     "augmentation is off for the repeat-read clause (with augmentation on samples are random by design)",
     "with user_instances_only the datasets replace lf.instances by lf.user_instances (documented filter); only coordinate arrays of instance objects are compared, not list membership",
     "frames whose instances are all empty are skipped by the datasets (statement: only non-empty instances produce samples)",
+    "a node is 'missing in the labels' iff sio.Instance.numpy() reports NaN for it (NaN coordinates, or visible=False with finite stored xy); an instance whose nodes are all missing in either encoding is empty (sio.Instance.is_empty is `not visible.any()`, verified for sleap-io 0.9.2 in the harness before every case)",
+    "functional op process_lf is only called on frames with at least one non-empty instance (its callers filter the other frames out)",
 ]
 
 DATASETS = ["single", "bottomup", "centroid", "centered"]
+MISSING_ENC = ["nan", "nan", "hidden", "mixed"]  # how missing nodes are stored in the label objects
+
+
+def _hidden_mask(inst):
+    """per node: missing AND stored as visible=False with finite xy (spec-level, no sleap_io)."""
+    hid = inst.get("hidden") or []
+    return [inst["pts"][k] is None and k < len(hid) and hid[k] is not None for k in range(len(inst["pts"]))]
+
+
+def _raw_snapshot(labels):
+    """Raw point storage (stored xy + visible flag) of every instance object."""
+    return [(inst, inst.points["xy"].copy(), inst.points["visible"].copy()) for lf in labels for inst in lf.instances]
+
+
+def _raw_changed(snap):
+    import numpy as np
+
+    for inst, xy, vis in snap:
+        if not np.array_equal(inst.points["xy"], xy, equal_nan=True):
+            return f"stored xy changed from {xy.tolist()} to {inst.points['xy'].tolist()}"
+        if not np.array_equal(inst.points["visible"], vis):
+            return f"visible flags changed from {vis.tolist()} to {inst.points['visible'].tolist()}"
+    return None
+
+
+def _verify_ground_truth(spec, labels):
+    """Harness self-check (not an oracle): the label objects encode what the spec says, i.e.
+    numpy() is NaN exactly for pts None, hidden nodes keep finite xy with visible False, and
+    is_empty agrees with 'no node reported by numpy()'."""
+    import numpy as np
+
+    for f, lf in zip(spec["frames"], labels):
+        for i, inst in zip(f["instances"], lf.instances):
+            arr = inst.numpy()
+            want = [p is None for p in i["pts"]]
+            assert np.isnan(arr).any(-1).tolist() == want, ("synth: NaN pattern of numpy() differs from spec", i, arr.tolist())
+            for k, h in enumerate(_hidden_mask(i)):
+                if h:
+                    assert np.isfinite(inst.points["xy"][k]).all() and not bool(inst.points["visible"][k]), ("synth: hidden node not stored as finite xy + visible False", i)
+            assert bool(inst.is_empty) == all(want), ("synth: is_empty disagrees with numpy()", i)
 
 
 # ----------------------------------------------------------------------------------
@@ -127,6 +177,8 @@ def eval_functional(case):
                     res.cls("missing-anchor")
         elif op == "find_points_bbox_midpoint":
             check(op, find_points_bbox_midpoint, [insts.clone()])
+        elif op == "process_lf":
+            _functional_process_lf(res, case)
         elif op == "make_centered_bboxes":
             c = torch.nan_to_num(insts[:, 0].clone(), nan=5.0)
             check(op, make_centered_bboxes, [c, case["crop"], case["crop"]])
@@ -176,11 +228,72 @@ def eval_functional(case):
     return res
 
 
+def _functional_process_lf(res, case):
+    """providers.process_lf on a one-frame label set: keypoints of the non-empty instances in label
+    order, missing (NaN or hidden-with-xy) nodes NaN, NaN padding, labels untouched."""
+    import numpy as np
+    from sleap_nn.data.providers import process_lf
+
+    enc = case.get("missing_enc", "nan")
+    hidden = case.get("hidden") or [None] * len(case["instances"])
+    specs = [{"pts": pts, "hidden": hid, "predicted": False} for pts, hid in zip(case["instances"], hidden)]
+    nonempty = [i for i in specs if any(p is not None for p in i["pts"])]
+    if not nonempty:
+        res.cls("process_lf:skipped-all-empty")
+        return
+    n_nodes = len(case["instances"][0])
+    spec = {
+        "skeleton": {"n_nodes": n_nodes, "edges": []},
+        "videos": [{"h": case["h"], "w": case["w"], "kind": "texture", "channels": case["channels"], "n_frames": 1, "seed": case["torch_seed"] % 100}],
+        "frames": [{"video": 0, "frame_idx": 0, "instances": specs}],
+    }
+    has_hidden = any(any(_hidden_mask(i)) for i in nonempty)
+    res.cls(f"process_lf|missing_enc={enc}", "process_lf:hidden-node" if has_hidden else "process_lf:no-hidden-node")
+    if any(all(p is None for p in i["pts"]) and any(_hidden_mask(i)) for i in specs):
+        res.cls("process_lf:empty-instance-with-hidden-nodes")
+    d = env.scratch_dir("c11f")
+    try:
+        labels, _ = synth.build_labels(spec, d + "/src")
+        _verify_ground_truth(spec, labels)
+        snap, raw = synth.labels_snapshot(labels), _raw_snapshot(labels)
+        max_inst = len(specs) + case.get("extra_instances", 0)
+        out = runner.guarded(res, "functional:process_lf", process_lf, labels[0], 0, max_inst, case.get("uio", True))
+        res.n_evals += 1
+        why = synth.snapshot_changed(snap) or _raw_changed(raw)
+        if why:
+            res.fail("functional:process_lf:labels-mutated", why)
+        if out is runner.FAILED:
+            return
+        lab = np.array([[[math.nan, math.nan] if p is None else p for p in i["pts"]] for i in nonempty], dtype=np.float64)
+        hid = np.array([_hidden_mask(i) for i in nonempty], dtype=bool)
+        got = out["instances"].numpy().reshape(-1, n_nodes, 2).astype(np.float64)
+        if int(out["num_instances"]) != lab.shape[0]:
+            res.fail("functional:process_lf:num-instances", f"num_instances {int(out['num_instances'])} expected {lab.shape[0]} non-empty instances")
+        if got.shape[0] < lab.shape[0]:
+            res.fail("functional:process_lf:keypoint-shape", f"instances shape {got.shape}, {lab.shape[0]} non-empty instances in the labels")
+            return
+        if not np.isnan(got[lab.shape[0]:]).all():
+            res.fail("functional:process_lf:invented-instance", f"padding rows beyond the {lab.shape[0]} labelled instances are not NaN: {got.tolist()}")
+        got = got[: lab.shape[0]]
+        lab_nan, got_nan = np.isnan(lab).any(-1), np.isnan(got).any(-1)
+        if (lab_nan & ~got_nan).any():
+            cls = "hidden-xy" if (lab_nan & ~got_nan & hid).any() else "nan-xy"
+            res.fail(f"functional:process_lf:invented-keypoint:{cls}", f"label {lab.tolist()} (hidden-with-xy mask {hid.tolist()}) -> instances {got.tolist()}")
+        if (~lab_nan & got_nan).any():
+            res.fail("functional:process_lf:lost-keypoint", f"label {lab.tolist()} -> instances {got.tolist()}")
+        both = ~lab_nan & ~got_nan
+        # tolerance: float64 -> float32 conversion of coordinates < 1e3 px
+        if both.any() and np.abs(got[both] - lab[both]).max() > 1e-3:
+            res.fail("functional:process_lf:keypoint-value", f"label {lab.tolist()} -> instances {got.tolist()}")
+    finally:
+        shutil.rmtree(d, ignore_errors=True)
+
+
 OPS = [
     "generate_centroids", "generate_centroids", "find_points_bbox_midpoint", "make_centered_bboxes", "generate_crops",
     "generate_confmaps", "generate_multiconfmaps", "generate_multiconfmaps_centroids", "generate_pafs",
     "apply_resizer", "apply_sizematcher", "apply_pad_to_stride", "apply_normalization",
-    "apply_intensity_augmentation", "apply_geometric_augmentation",
+    "apply_intensity_augmentation", "apply_geometric_augmentation", "process_lf", "process_lf",
 ]
 
 
@@ -193,6 +306,7 @@ def _points_strategy(st, n_nodes, h, w, force_missing=None):
         pts = []
         for n in range(n_nodes):
             pts.append([draw(st.integers(2, w - 3)) + draw(st.sampled_from([0.0, 0.25, 0.5])), draw(st.integers(2, h - 3)) + draw(st.sampled_from([0.0, 0.5, 0.75]))])
+        full = [list(p) for p in pts]  # coordinates of every node before the NaN pattern is applied
         if pattern == "random":
             keep = draw(st.integers(0, n_nodes - 1))
             pts = [p if (i == keep or draw(st.booleans())) else None for i, p in enumerate(pts)]
@@ -201,9 +315,28 @@ def _points_strategy(st, n_nodes, h, w, force_missing=None):
             pts = [p if i == keep else None for i, p in enumerate(pts)]
         elif pattern == "none":
             pts = [None] * n_nodes
-        return pattern, pts
+        return pattern, pts, full
 
     return inst()
+
+
+def _hidden_strategy(st, enc, pts, full):
+    """Encoding of the missing nodes of one instance: list ([x,y] = hidden with that stored xy | None = NaN)
+    or None when every missing node is NaN-encoded.  `enc`: "nan" | "hidden" (all) | "mixed" (drawn per node)."""
+
+    @st.composite
+    def hid(draw):
+        if enc == "nan":
+            return None
+        out = []
+        for k, p in enumerate(pts):
+            if p is None and (enc == "hidden" or draw(st.booleans())):
+                out.append(list(full[k]))
+            else:
+                out.append(None)
+        return out if any(h is not None for h in out) else None
+
+    return hid()
 
 
 def strategy_functional():
@@ -215,14 +348,17 @@ def strategy_functional():
         n_inst = draw(st.integers(1, 3))
         h, w = draw(st.integers(24, 64)), draw(st.integers(24, 64))
         anchor = draw(st.one_of(st.none(), st.integers(0, n_nodes - 1)))
-        insts = []
+        enc = draw(st.sampled_from(MISSING_ENC))
+        insts, hidden = [], []
         for _ in range(n_inst):
-            pattern, pts = draw(_points_strategy(st, n_nodes, h, w))
+            pattern, pts, full = draw(_points_strategy(st, n_nodes, h, w))
             if pattern == "anchor_missing" and anchor is not None and n_nodes > 1:
                 pts[anchor] = None
             insts.append(pts)
+            hidden.append(draw(_hidden_strategy(st, enc, pts, full)))
         ops = draw(st.lists(st.sampled_from(OPS), min_size=1, max_size=5))
         return {
+            "missing_enc": enc, "hidden": hidden, "uio": draw(st.booleans()), "extra_instances": draw(st.integers(0, 2)),
             "instances": insts, "h": h, "w": w, "channels": draw(st.sampled_from([1, 3])), "anchor": anchor,
             "ops": ops, "crop": draw(st.sampled_from([16, 21, 32])), "stride": draw(st.sampled_from([1, 2, 4])),
             "scale": draw(st.sampled_from([0.5, 1.0, 1.5])), "pad": draw(st.integers(0, 9)),
@@ -318,11 +454,13 @@ def eval_dataset(case):
     d = env.scratch_dir("c11")
     try:
         labels, info = synth.build_labels(spec, d + "/src")
+        _verify_ground_truth(spec, labels)
         snap = synth.labels_snapshot(labels)
+        raw = _raw_snapshot(labels)
         ds = runner.guarded(res, f"dataset:{kind}:construct", _make_dataset, kind, labels, cfg, d + "/chunks")
         if ds is runner.FAILED:
             return res
-        why = synth.snapshot_changed(snap)
+        why = synth.snapshot_changed(snap) or _raw_changed(raw)
         if why:
             res.fail(f"dataset:{kind}:labels-mutated-by-construction", why)
         units = _expected_units(spec, cfg, kind)
@@ -355,7 +493,7 @@ def eval_dataset(case):
                 break
             res.n_evals += 1
             order.append(idx)
-            why = synth.snapshot_changed(snap)
+            why = synth.snapshot_changed(snap) or _raw_changed(raw)
             if why:
                 res.fail(f"dataset:{kind}:labels-mutated-by-read", why)
             if idx in first:
@@ -372,6 +510,7 @@ def eval_dataset(case):
                 res.fail(f"dataset:{kind}:wrong-frame", f"index {idx}: sample from video {int(sample['video_idx'])} frame {int(sample['frame_idx'])}, expected video {u['video']} frame {u['frame_idx']}")
                 continue
             lab = np.array([[[math.nan, math.nan] if p is None else p for p in i["pts"]] for i in u["insts"]], dtype=np.float64)
+            hid = np.array([_hidden_mask(i) for i in u["insts"]], dtype=bool)  # missing nodes stored as finite xy + visible False
             if kind == "centered":
                 # crop coordinates: compare up to the crop translation (its convention is C04's
                 # business) by centring both on the mean of the commonly visible nodes
@@ -397,7 +536,9 @@ def eval_dataset(case):
                 if (lab_nan & ~got_nan).any():
                     a = cfg["anchor"]
                     cls = "missing-anchor" if (a is not None and kind in ("centered",) and lab_nan[..., a].any()) else "missing-node"
-                    res.fail(f"dataset:{kind}:invented-keypoint:{cls}", f"index {idx}: label {lab.tolist()} -> sample keypoints {np.round(got_abs, 2).tolist()}")
+                    if (lab_nan & ~got_nan & hid).any():
+                        cls += ":hidden-xy"
+                    res.fail(f"dataset:{kind}:invented-keypoint:{cls}", f"index {idx}: label {lab.tolist()} (hidden-with-xy mask {hid.tolist()}) -> sample keypoints {np.round(got_abs, 2).tolist()}")
                 if (~lab_nan & got_nan).any():
                     res.fail(f"dataset:{kind}:lost-keypoint", f"index {idx}: label {lab.tolist()} -> sample keypoints {np.round(got_abs, 2).tolist()}")
                 both = ~lab_nan & ~got_nan
@@ -414,13 +555,16 @@ def eval_dataset(case):
                     if lab_nan[0, node] and cm.shape[0] == lab.shape[1] and np.abs(cm[node]).max() != 0:
                         a = cfg["anchor"]
                         cls = "missing-anchor" if (a == node and kind == "centered") else "missing-node"
+                        if hid[0, node]:
+                            cls += ":hidden-xy"
                         res.fail(f"dataset:{kind}:confmap-for-missing-node:{cls}", f"index {idx}: node {node} is missing in the labels but its confidence map peaks at {float(cm[node].max()):.3f}")
             elif kind == "bottomup":
                 cm = sample["confidence_maps"].numpy()
                 cm = cm.reshape(-1, cm.shape[-2], cm.shape[-1])
                 for node in range(lab.shape[1]):
                     if lab_nan[:, node].all() and cm.shape[0] == lab.shape[1] and np.abs(cm[node]).max() != 0:
-                        res.fail(f"dataset:{kind}:confmap-for-missing-node:missing-node", f"index {idx}: node {node} missing in every animal but its map peaks at {float(cm[node].max()):.3f}")
+                        cls = "missing-node:hidden-xy" if hid[:, node].any() else "missing-node"
+                        res.fail(f"dataset:{kind}:confmap-for-missing-node:{cls}", f"index {idx}: node {node} missing in every animal but its map peaks at {float(cm[node].max()):.3f}")
             elif kind == "centroid":
                 cen = sample["centroids"].numpy().reshape(-1, 2)[: lab.shape[0]]
                 a = cfg["anchor"]
@@ -443,6 +587,20 @@ def eval_dataset(case):
         has_empty = any(all(p is None for p in i["pts"]) for f in spec["frames"] for i in f["instances"])
         res.nontrivial = interleaved and (has_missing or has_empty)
         mixed = any(len({bool(i.get("predicted")) for i in f["instances"]}) == 2 for f in spec["frames"])
+        enc = case.get("missing_enc", "nan")
+        all_insts = [i for f in spec["frames"] for i in f["instances"]]
+        hidden_in_nonempty = any(any(_hidden_mask(i)) and any(p is not None for p in i["pts"]) for i in all_insts)
+        hidden_empty = any(any(_hidden_mask(i)) and all(p is None for p in i["pts"]) for i in all_insts)
+        a = cfg["anchor"]
+        hidden_anchor = a is not None and any(_hidden_mask(i)[a] and any(p is not None for p in i["pts"]) for i in all_insts)
+        res.cls(f"missing_enc={enc}", f"ds={kind}|missing_enc={enc}",
+                "hidden_xy_node_in_nonempty_instance" if hidden_in_nonempty else "no_hidden_xy_node_in_nonempty_instance")
+        if hidden_empty:
+            res.cls("empty_instance_with_hidden_xy_nodes")
+        if hidden_anchor:
+            res.cls("hidden_xy_anchor")
+        if hidden_in_nonempty:
+            res.cls(f"ds={kind}|hidden_xy_node")
         res.cls("mixed_user_predicted_frame" if mixed else "unmixed")
         res.cls(f"ds={kind}", f"np_chunks={cfg['np_chunks']}", f"anchor={'none' if cfg['anchor'] is None else 'set'}",
                 "has_missing" if has_missing else "all_visible", "has_empty_instance" if has_empty else "no_empty",
@@ -458,7 +616,7 @@ def strategy_dataset():
 
     @st.composite
     def case(draw):
-        kind, scale0 = draw(st.sampled_from([(k, sc) for k in DATASETS + ["centered"] for sc in (1.0, 1.0, 0.5, 1.5)]))  # one draw: even joint coverage
+        kind, scale0, enc = draw(st.sampled_from([(k, sc, e) for k in DATASETS + ["centered"] for sc in (1.0, 1.0, 0.5, 1.5) for e in MISSING_ENC]))  # one draw: even joint coverage
         n_nodes = draw(st.integers(1, 4)) if kind != "bottomup" else draw(st.integers(2, 4))
         rgb = draw(st.booleans())
         nv = draw(st.sampled_from([1, 1, 2]))
@@ -478,15 +636,32 @@ def strategy_dataset():
             n_inst = 1 if kind == "single" else draw(st.integers(1, 3))
             insts = []
             for _ in range(n_inst):
-                pattern, pts = draw(_points_strategy(st, n_nodes, videos[v]["h"], videos[v]["w"]))
+                pattern, pts, full = draw(_points_strategy(st, n_nodes, videos[v]["h"], videos[v]["w"]))
                 if pattern == "anchor_missing" and anchor is not None and n_nodes > 1:
                     pts[anchor] = None
                 predicted = draw(st.integers(0, 2)) == 0
-                insts.append({"pts": pts, "predicted": predicted, "score": 0.8})
+                inst = {"pts": pts, "predicted": predicted, "score": 0.8}
+                hid = draw(_hidden_strategy(st, enc, pts, full))
+                if hid is not None:  # specs of the NaN-only class stay exactly what they were
+                    inst["hidden"] = hid
+                insts.append(inst)
             if kind == "single":  # single-instance data has exactly one (non-empty) instance per frame
                 if all(p is None for p in insts[0]["pts"]):
                     insts[0]["pts"][0] = [10.5, 11.0]
+                    if insts[0].get("hidden"):
+                        insts[0]["hidden"][0] = None
             frames.append({"video": v, "frame_idx": fi, "instances": insts})
+        if enc != "nan" and n_nodes > 1 and frames and not any(any(_hidden_mask(i)) and any(p is not None for p in i["pts"]) for f in frames for i in f["instances"]):
+            # construct the class instead of hoping for it: hide one node (keeping its coordinates as
+            # stored xy) of a non-empty instance that keeps at least one other visible node
+            cands = [i for f in frames for i in f["instances"] if sum(p is not None for p in i["pts"]) >= 2]
+            if cands:
+                i = cands[draw(st.integers(0, len(cands) - 1))]
+                vis = [k for k, p in enumerate(i["pts"]) if p is not None]
+                k = anchor if (anchor in vis and draw(st.booleans())) else vis[draw(st.integers(0, len(vis) - 1))]
+                i["hidden"] = i.get("hidden") or [None] * n_nodes
+                i["hidden"][k] = list(i["pts"][k])
+                i["pts"][k] = None
         if not frames:
             frames.append({"video": 0, "frame_idx": 0, "instances": [{"pts": [[10.0, 12.0]] * n_nodes, "predicted": False}]})
         edges = [[i, i + 1] for i in range(n_nodes - 1)]
@@ -506,17 +681,17 @@ def strategy_dataset():
                 min_size=4, max_size=12,
             )
         )
-        return {"kind": kind, "spec": spec, "cfg": cfg, "history": [list(h) for h in history]}
+        return {"kind": kind, "missing_enc": enc, "spec": spec, "cfg": cfg, "history": [list(h) for h in history]}
 
     return case()
 
 
 def summarize_dataset(case):
     return {
-        "kind": case["kind"], "cfg": case["cfg"], "history": case["history"],
+        "kind": case["kind"], "missing_enc": case.get("missing_enc", "nan"), "cfg": case["cfg"], "history": case["history"],
         "videos": [(v["h"], v["w"], v["kind"]) for v in case["spec"]["videos"]],
         "frames": [
-            {"video": f["video"], "frame_idx": f["frame_idx"], "instances": [{"pts": i["pts"], "predicted": i.get("predicted", False)} for i in f["instances"]]}
+            {"video": f["video"], "frame_idx": f["frame_idx"], "instances": [{"pts": i["pts"], "hidden": i.get("hidden"), "predicted": i.get("predicted", False)} for i in f["instances"]]}
             for f in case["spec"]["frames"]
         ],
     }
